@@ -19,6 +19,60 @@ def addOp (n : Nat) (f : B → List B → List B → Option (List B)) : Handler 
       | none => .error "short"
   | _ => .error "arity"
 
+/-! `c05.add <T> <spelling> <rankX> <dimsX…> <rankO> <dimsO…> <w> <eps> <alpha> <X items…> <o rows…>` : the batched dispatch
+`lieAdd`; reply `<rank> <dims…> <last> <items…>` (all as numbers) or `err short|wide|broadcast|inplaceShape`. -/
+
+def spellingOf : String → Option AddSpelling
+  | "+" => some .plus | "add" => some .add | "pp.add" => some .ppAdd | "add_" => some .addInplace
+  | "pp.add_" => some .ppAddInplace | "Retr" => some .retr | "pp.Retr" => some .ppRetr | _ => none
+
+def chunks (n : Nat) (xs : List B) : Nat → List (List B)
+  | 0 => []
+  | k + 1 => xs.take n :: chunks n (xs.drop n) k
+
+def errName : AddError → String
+  | .short => "short" | .wide => "wide" | .broadcast => "broadcast" | .inplaceShape => "inplaceShape"
+
+def natTok (n : Nat) : String := BigF.toWire (Scalar.ofNat n : B)
+
+def batchedAdd {G : Type} [Inhabited G] (m d : Nat) (retr : B → List B → G → G) (ofL : List B → G) (toL : G → List B)
+    (sp : AddSpelling) (sx so : List Nat) (w : Nat) (nums : List B) : Except String String :=
+  match nums with
+  | eps :: alpha :: rest =>
+    let nx := Batch.numel sx
+    let no := Batch.numel so
+    if rest.length ≠ nx * d + no * w then .error "arity" else
+    let xrows := chunks d (rest.take (nx * d)) nx
+    let orows := chunks w (rest.drop (nx * d)) no
+    let x : Batch.T G := ⟨sx, fun k => ofL (xrows.getD k [])⟩
+    let o : Batch.T (List B) := ⟨so, fun k => orows.getD k []⟩
+    match lieAdd m d (retr eps) sp alpha x o w with
+    | .error e => .error (errName e)
+    | .ok r =>
+      let items := (List.range (Batch.numel r.shape)).map (fun k => toL (r.data k))
+      .ok (" ".intercalate ([natTok r.shape.length] ++ r.shape.map natTok ++ [natTok r.last] ++ [fmt items.flatten]))
+  | _ => .error "arity"
+
+def addBatchHandler : Handler := fun ts =>
+  match ts with
+  | ty :: spS :: rest => do
+    let sp ← match spellingOf spS with | some s => pure s | none => throw "spelling"
+    let rx ← nat (rest.getD 0 "")
+    let sx ← nats ((rest.drop 1).take rx)
+    let rest2 := rest.drop (1 + rx)
+    let ro ← nat (rest2.getD 0 "")
+    let so ← nats ((rest2.drop 1).take ro)
+    let rest3 := rest2.drop (1 + ro)
+    let w ← nat (rest3.getD 0 "")
+    let xs ← nums (rest3.drop 1)
+    match ty with
+    | "SO3" => batchedAdd 3 4 SO3retrItem (fun l => qt l) Quat.toList sp sx so w xs
+    | "SE3" => batchedAdd 6 7 SE3retrItem (fun l => toSE3 l) SE3.toList sp sx so w xs
+    | "RxSO3" => batchedAdd 4 5 RxSO3retrItem (fun l => toRx l) RxSO3.toList sp sx so w xs
+    | "Sim3" => batchedAdd 7 8 Sim3retrItem (fun l => toSim l) Sim3.toList sp sx so w xs
+    | _ => throw "type"
+  | _ => throw "arity"
+
 def opsC05 : List (String × Handler) := [
   ("SO3.add", addOp 4 fun e x o => (SO3Add e (qt x) o).map Quat.toList),
   ("SE3.add", addOp 7 fun e x o => (SE3Add e (toSE3 x) o).map SE3.toList),
@@ -28,7 +82,8 @@ def opsC05 : List (String × Handler) := [
   ("se3.add", addOp 6 fun _ x o => algAdd x o),
   ("rxso3.add", addOp 4 fun _ x o => algAdd x o),
   ("sim3.add", addOp 7 fun _ x o => algAdd x o),
-  ("SO3.Jr", withEps 4 fun e l => (SO3Jr e (qt l)).toList)
+  ("SO3.Jr", withEps 4 fun e l => (SO3Jr e (qt l)).toList),
+  ("c05.add", addBatchHandler)
 ]
 
 end PP.Driver
